@@ -35,6 +35,9 @@ pub enum MFocus {
     Query,
     /// acyclic graphs, connections added through detached port clones
     Clones,
+    /// one broadcasting hub and 100-300 leaf models: more runnable tasks than one
+    /// injector bucket (128) / one worker's local queue (256) holds
+    Wide,
 }
 
 const MAX_HANDLERS: usize = 1500;
@@ -575,7 +578,10 @@ fn check_phase(b: &Bench, dag: bool, clones: bool, qualified: &[String], p: &Pha
         if matches!(p.inj.first(), Some(Inj::Init)) && p.err.is_none() {
             for m in 0..n {
                 if seen_init[m] != 1 {
-                    return Err(mfail(&["C16"], "init-count", format!("model {} ran init {} times during SimInit::init", m, seen_init[m])));
+                    // an init that never ran although SimInit::init returned Ok is also an
+                    // incomplete run (C04: "when init ... returns Ok, every computation ... has finished")
+                    let props: &'static [&'static str] = if seen_init[m] == 0 { &["C16", "C04"] } else { &["C16"] };
+                    return Err(mfail(props, "init-count", format!("model {} ran init {} times during SimInit::init", m, seen_init[m])));
                 }
             }
             // messages sent to a model before its own init started were kept (they are part of the multiset below)
@@ -1228,7 +1234,59 @@ fn raw_model(f: MFocus, nscripts: u16) -> BoxedStrategy<RawModel> {
         .boxed()
 }
 
+fn wide_bench_strategy() -> BoxedStrategy<Bench> {
+    (
+        proptest::sample::select(vec![100usize, 127, 128, 129, 130, 160, 255, 256, 257, 300]),
+        1usize..4,
+        1usize..3,
+        any::<bool>(),
+        any::<bool>(),
+    )
+        .prop_map(|(nleaf, cap, hub_sends, leaf_init, leaf_replies)| {
+            let plain = |target: Target, tag: u16| Conn {
+                target,
+                kind: ConnKind::Plain,
+                tag,
+            };
+            let mut models = vec![ModelSpec {
+                name: "hub".into(),
+                cap: 4,
+                parent: None,
+                outs: vec![(1..=nleaf).map(|i| plain(Target::Model(i as u16), i as u16)).collect()],
+                reqs: vec![],
+                scripts: vec![vec![Op::Send { out: 0, script: 1 }; hub_sends], vec![]],
+                init: vec![],
+                nslots: 0,
+            }];
+            for i in 1..=nleaf {
+                models.push(ModelSpec {
+                    name: format!("leaf{}", i),
+                    cap,
+                    parent: None,
+                    outs: vec![vec![plain(Target::Sink(0), 0)]],
+                    reqs: vec![],
+                    scripts: vec![vec![], if leaf_replies { vec![Op::Send { out: 0, script: 0 }] } else { vec![] }],
+                    init: if leaf_init { vec![Op::Send { out: 0, script: 0 }] } else { vec![] },
+                    nslots: 0,
+                });
+            }
+            Bench {
+                models,
+                sinks: vec![SinkSpec::Buffer { cap: 1_000_000 }, SinkSpec::Slot],
+                orphans: vec![],
+                sources: vec![],
+                qsources: vec![],
+                vclock: false,
+                tokens: false,
+            }
+        })
+        .boxed()
+}
+
 pub fn mbench_strategy(f: MFocus) -> BoxedStrategy<Bench> {
+    if f == MFocus::Wide {
+        return wide_bench_strategy();
+    }
     let nm = match f {
         MFocus::Cyclic => 1usize..5,
         _ => 2usize..7,
@@ -1300,6 +1358,23 @@ pub fn mbench_strategy(f: MFocus) -> BoxedStrategy<Bench> {
 }
 
 fn mcmd_strategy(f: MFocus, n: u16, nsrc: u16, nscripts: u16) -> BoxedStrategy<Cmd> {
+    if f == MFocus::Wide {
+        // mostly the hub (model 0), whose script 0 broadcasts to every leaf
+        let model = prop_oneof![3 => Just(0u16), 1 => 0..n];
+        return prop_oneof![
+            4 => (model.clone(), 0u16..2, 2u8..4).prop_map(|(model, script, ttl)| Cmd::ProcessEvent { model, script, ttl }),
+            2 => (model, 1u64..3, 0u16..2, 2u8..4).prop_map(|(model, d, script, ttl)| Cmd::Sched {
+                model,
+                dl: Dl::Rel(d),
+                period: None,
+                keyed: None,
+                script,
+                ttl
+            }),
+            2 => Just(Cmd::Step),
+        ]
+        .boxed();
+    }
     let ttl = 1u8..4;
     let mut v: Vec<(u32, BoxedStrategy<Cmd>)> = vec![
         (
